@@ -91,7 +91,10 @@ def build(tid, coef=None):
     return m
 
 
-def symbolic_bounds(E, m, which=None, lo=-10, hi=10, inf=False, delta=None, sign=None):
+DELTA = 0.01     # tolerance discipline of every LP harness (DESIGN 4.0): a finite symbolic bound is 0 or |b| >= DELTA
+
+
+def symbolic_bounds(E, m, which=None, lo=-10, hi=10, inf=False, delta=DELTA, sign=None):
     """give the listed reactions (default: all) symbolic bounds lb<=ub in [lo,hi];
     delta: every finite bound is 0 or at least delta in magnitude (tolerance discipline, 4.0)"""
     out = {}
